@@ -239,18 +239,18 @@ PROPS["C17"] = dict(
 
 
 PROPS["C12"] = dict(
-    units=["color_opt", "flat_clone"],
+    units=["color_opt", "color_opt_layer", "flat_clone"],
     kani_quick=["std_spec_u8_count_ones"],
     trusted_base=COMMON_TRUST + [
         "S9: u8::count_ones facts (0 <= n <= 8, n == 0 <=> b == 0, n == 8 <=> b == 0xFF) - proved by the Kani harness std_spec_u8_count_ones for all 256 values, assumed in the Verus unit",
         "the renderer's per-pixel rule (glyph bit ? foreground, bright when bold and < 8 : background) is transcribed as spec fn pixel_colour from Buffer::render_to_rgba; the render loops themselves are not under contract",
     ],
-    unverified_remainder=["BLOCK SLICE: only the body of the innermost cell loop of ColorOptimizer::optimize is verified (as optimize_cell); the three loops, the shape-map lookups (nested HashMap .get().unwrap(), which can panic for a cell whose font page or character has no glyph), layer.set_char and Buffer::flat_clone are dropped or replaced (O1)",
+    unverified_remainder=["BLOCK SLICE: the body of the layer loop of ColorOptimizer::optimize (both cell loops, with the real Layer::get_char / set_char calls through their contracts) is verified as optimize_layer (unit color_opt_layer): every cell of the layer is rewritten at most once, in place, by a rewrite that keeps every admissible pixel colour, and no other cell changes; the innermost body alone is also verified as optimize_cell (unit color_opt). NOT decided: the outer `for layer in &mut b.layers` shell and its composition with flat_clone; the shape-map lookups (nested HashMap .get().unwrap(), which can panic for a cell whose font page or character has no glyph) are O1 stubs returning an uninterpreted function of (optimizer, font page, character)",
                           "generate_shape_map (iteration over HashMaps) and Buffer::render_to_rgba are not under contract",
                           "Buffer::flat_clone(false) (unit flat_clone) is proved to copy, cell for cell, what get_char composites (up to invisible cells); its terminal-state / palette / sauce / font-table clones are dropped statements (O1), deep_layers = true is not covered",
                           "fonts narrower than 8 pixels: Block classification counts all 8 bits of a row"],
     explanation="get_shape is proved sound: Whitespace => every row of the glyph is 0, Block (8-pixel font, height rows) => every row is 0xFF. The real text of the cell rewrite in "
                 "ColorOptimizer::optimize is proved to keep the attribute flags and font page, to change the character only to ' ' and only for a Whitespace glyph when the font's own ' ' "
                 "glyph is Whitespace (the defect found), and to keep pixel_colour(bit, attribute) for every glyph bit the shape class admits; lemma_cell_picture composes the two into "
-                "'every pixel of the cell keeps its colour'.",
+                "'every pixel of the cell keeps its colour'. Unit color_opt_layer lifts the per-cell fact to the layer: after the two cell loops every cell is either untouched or such a rewrite of the cell that was there.",
 )
